@@ -78,6 +78,9 @@ def directed_scenarios(rnd):
         A.t_struct("D7", [A.field("k", u8), A.field("", A.t_struct("", [A.field("n", u8), A.field("", A.t_struct("", [A.field("m", u8)]), anon=True)]), anon=True),
                           A.field("data", A.t_arr(u8, A.L_expr(A.e_id("n")))), A.field("more", A.t_arr(u16, A.L_expr(A.e_bin("&", A.e_id("m"), A.e_lit(3))))),
                           A.field("t", u8)]),
+        # a fixed-size union whose first member is not its largest (the writer decides which member to write), dumped by every thread
+        A.t_struct("D8", [A.field("n", u8), A.field("u", A.t_struct("uf", [A.field("s", u8), A.field("q", A.t_int("uint32")), A.field("h", u16)], union=True)),
+                          A.field("d", A.t_arr(u8, A.L_expr(A.e_id("n")))), A.field("t", u16)]),
     ]
     out = []
     for t in defs:
@@ -125,7 +128,13 @@ def explore(rnd, scn, compiled, nthreads, budget, datas=None):
     seen = {}
     diverged = 0
     for plan in plans:
-        res, _ = sched.Run(funcs, plan).run()
+        run_funcs = funcs
+        if rnd.random() < 0.3:
+            # a FRESH object: whatever the library sets up lazily on first use (and the solo runs above have long set up on `cs`)
+            # is set up under this schedule (seed S115: a write order cached on the class while it is being built)
+            T2 = getattr(codec.load(scn["defs"], mode, compiled), t["name"])
+            run_funcs = [thread_func(T2, t, d, start) for d in datas]
+        res, _ = sched.Run(run_funcs, plan).run()
         for tid, r in enumerate(res):
             o = outcome(r)
             key = (tid, json.dumps(o, sort_keys=True))
